@@ -281,6 +281,7 @@ func c10NewLive(r *verifkit.Run, rng *rand.Rand, caseIdx int, w *c10LiveWorld) (
 		msgs: map[uint64]c10Rec{}, nextID: uint64(caseIdx+1) * 1_000_000, paused: map[ch.NodeID]bool{}, views: map[ch.NodeID]c10ViewMark{}}
 	l.ctx, l.cancel = context.WithCancel(context.Background())
 	l.hub.history = l.history
+	l.hub.mode = w.mode
 	id := ch.ChannelID{ID: fmt.Sprintf("c10l-%d-%d", r.Seed, caseIdx), Type: 2}
 	leader := ch.NodeID(1 + rng.IntN(3))
 	isr := []ch.NodeID{1, 2, 3}
